@@ -629,6 +629,8 @@ def aggregate (D : Defects) (f : AggFn) (vs : List Value) : Except Err Value :=
 inductive From where
   | table (t : Nat)
   | join (k : JoinKind) (l r : From) (on : Option Expr)
+  /-- derived table `(SELECT items FROM inner [WHERE w]) AS r`: the select-project form of a query in FROM -/
+  | derived (inner : From) (w : Option Expr) (items : List Expr)
   deriving Repr, Inhabited
 
 structure Agg where
@@ -666,6 +668,7 @@ abbrev Db := List TableDef
 def From.tys (db : Db) : From → List Ty
   | .table t => (db.getD t default).tys
   | .join _ l r _ => l.tys db ++ r.tys db
+  | .derived f _ items => items.map (inferTy (f.tys db))
 
 /-- is the expression a conjunction of `column = column` (the planner's equi-join test)? -/
 def isEquiCond : Expr → Bool
@@ -684,6 +687,18 @@ def equiPairs : Expr → List (Nat × Nat)
   | .cmp .eq (.col l) (.col r) => [(l, r)]
   | .and a b => equiPairs a ++ equiPairs b
   | _ => []
+
+/-- evaluate the projection of one row and cast every item to its inferred type -/
+def projectRow (D : Defects) (tys : List Ty) (items : List Expr) (row : Row) : Except Err Row :=
+  mapE (fun e => match eval D tys row e with
+    | .error x => .error x
+    | .ok v => castTo (inferTy tys e) v) items
+
+/-- WHERE step -/
+def applyWhere (D : Defects) (tys : List Ty) (w : Option Expr) (rows : List Row) : Except Err (List Row) :=
+  match w with
+  | none => .ok rows
+  | some e => filterRows (evalPred D tys e) rows
 
 def evalFrom (D : Defects) (db : Db) : From → Except Err (List Row)
   | .table t => match db[t]? with
@@ -732,12 +747,12 @@ def evalFrom (D : Defects) (db : Db) : From → Except Err (List Row)
             .ok (joinPure (if k == .right then .inner else .left) m' lw rw lrows rrows)
           else
             .ok (joinPure k m' lw rw lrows rrows)
-
-/-- evaluate the projection of one row and cast every item to its inferred type -/
-def projectRow (D : Defects) (tys : List Ty) (items : List Expr) (row : Row) : Except Err Row :=
-  mapE (fun e => match eval D tys row e with
+  | .derived f w items =>
+    match evalFrom D db f with
     | .error x => .error x
-    | .ok v => castTo (inferTy tys e) v) items
+    | .ok rows => match applyWhere D (f.tys db) w rows with
+      | .error x => .error x
+      | .ok kept => mapE (projectRow D (f.tys db) items) kept
 
 /-- distinct values, first occurrences -/
 def dedupV : List Value → List Value
@@ -773,12 +788,6 @@ def aggRow (D : Defects) (tys : List Ty) (keys : List Expr) (aggs : List Agg)
     | .ok as => .ok (ks ++ as)
 
 def keyedBy (pos : List Nat) (row : Row) : List Value × Row := (pos.map (fun i => row.getD i .null), row)
-
-/-- WHERE step -/
-def applyWhere (D : Defects) (tys : List Ty) (w : Option Expr) (rows : List Row) : Except Err (List Row) :=
-  match w with
-  | none => .ok rows
-  | some e => filterRows (evalPred D tys e) rows
 
 /-- pair every row with its group key -/
 def keyRows (D : Defects) (tys : List Ty) (keys : List Expr) (rows : List Row) :
@@ -983,6 +992,8 @@ def illTypedOpt (tys : List Ty) (unk : List Nat) : Option Expr → Bool
 def From.illTyped (db : Db) : From → Bool
   | .table _ => false
   | .join _ l r on => l.illTyped db || r.illTyped db || illTypedOpt (l.tys db ++ r.tys db) [] on
+  | .derived f w items =>
+    f.illTyped db || illTypedOpt (f.tys db) [] w || illTypedList (f.tys db) [] items
 
 /-- positions of the aggregate row without a type: keys and MIN / MAX arguments that are untyped NULLs -/
 def aggUnknown (tys : List Ty) (keys : List Expr) (aggs : List Agg) : List Nat :=
